@@ -46,6 +46,10 @@ pub struct RunSpec<T: Sc> {
     pub do_fit: bool,
     pub cert: Option<Cert<T>>,
     pub threads: usize,
+    /// query jacobian() of the problem every fit hands back
+    pub post_jac: bool,
+    /// fit a second time, starting from the problem the first fit handed back
+    pub refit: bool,
 }
 
 pub fn fam_shape(fam: &str) -> (usize, usize) {
@@ -115,6 +119,30 @@ fn close<T: Sc>(a: &[T], b: &[T]) -> bool {
         })
 }
 
+/// jacobian() of a problem and whether it agrees with the Jacobian of a freshly built (fault free,
+/// unrecorded) problem at the same parameters; absence is judged by the specification
+fn jac_query<T: Sc>(rs: &RunSpec<T>, prob: &dyn Prob<T>) -> (bool, bool) {
+    let j = prob.jacobian();
+    let params = prob.params();
+    let present = j.is_some();
+    let fresh = match j {
+        None => true,
+        Some(j) => match catch_unwind(AssertUnwindSafe(|| make_problem(rs, &params, None).ok().and_then(|p| p.jacobian()))) {
+            Ok(Some(f)) => {
+                let tol = if T::NAME == "f64" { 1e-10 } else { 1e-4 };
+                let scale = f.iter().fold(0.0f64, |m, v| m.max(v.to64().abs())).max(1e-300);
+                j.shape() == f.shape()
+                    && j.iter().zip(f.iter()).all(|(a, b)| {
+                        let (a, b) = (a.to64(), b.to64());
+                        (a.is_nan() && b.is_nan()) || a == b || (a - b).abs() <= tol * scale
+                    })
+            }
+            _ => true,
+        },
+    };
+    (present, fresh)
+}
+
 pub struct RunOut {
     pub differs_from_clean: bool,
     pub events: Vec<Value>,
@@ -170,7 +198,7 @@ pub fn record_run<T: Sc>(rs: &RunSpec<T>) -> RunOut {
                 prob.set_params(a);
                 None
             }
-            COp::Jac => Some(prob.jacobian().is_some()),
+            COp::Jac => Some(jac_query(rs, prob.as_ref())),
         }));
         drain(&mut items, &mut taken);
         match r {
@@ -180,7 +208,7 @@ pub fn record_run<T: Sc>(rs: &RunSpec<T>) -> RunOut {
                 break;
             }
             Ok(None) => items.push(Item::Marker("CSetEnd".into(), json!({}), Some(snap(prob.as_ref())))),
-            Ok(Some(present)) => items.push(Item::Marker("CJacEnd".into(), json!({"present": present}), None)),
+            Ok(Some((present, fresh))) => items.push(Item::Marker("CJacEnd".into(), json!({"present": present, "fresh": fresh}), None)),
         }
     }
     if panicked || !rs.do_fit {
@@ -188,57 +216,85 @@ pub fn record_run<T: Sc>(rs: &RunSpec<T>) -> RunOut {
         return finish_items(rs, items, calls, panicked, termination, false);
     }
 
-    items.push(Item::Marker(
-        "FitStart".into(),
-        json!({"patience": rs.cfg.patience, "stats": rs.with_stats}),
-        None,
-    ));
     let pool = crate::pools::pool(rs.threads.max(1));
-    let cfg = rs.cfg.clone();
-    let with_stats = rs.with_stats;
-    let fitted = catch_unwind(AssertUnwindSafe(|| {
-        pool.install(move || {
-            if with_stats {
-                let o = prob.fit_stats(&cfg, &[0.9], &[]).expect("single rhs");
-                let sok = o.stats.is_some();
-                (o.fit, Some(sok))
-            } else {
-                (prob.fit(&cfg), None)
+    let n_fits = if rs.refit { 2 } else { 1 };
+    let mut next_prob = Some(prob);
+    let mut last: Option<(FitOut<T>, usize)> = None;
+    for round in 0..n_fits {
+        let prob = next_prob.take().unwrap();
+        items.push(Item::Marker(
+            "FitStart".into(),
+            json!({"patience": rs.cfg.patience, "stats": rs.with_stats, "round": round}),
+            None,
+        ));
+        let cfg = rs.cfg.clone();
+        let with_stats = rs.with_stats;
+        let fitted = catch_unwind(AssertUnwindSafe(|| {
+            pool.install(move || {
+                if with_stats {
+                    let o = prob.fit_stats(&cfg, &[0.9], &[]).expect("single rhs");
+                    let sok = o.stats.is_some();
+                    (o.fit, Some(sok))
+                } else {
+                    (prob.fit(&cfg), None)
+                }
+            })
+        }));
+        drain(&mut items, &mut taken);
+        let (fo, sok) = match fitted {
+            Err(_) => {
+                items.push(Item::Marker("Panic".into(), json!({"where": "fit"}), None));
+                let calls = log.lock().unwrap().calls;
+                return finish_items(rs, items, calls, true, termination, false);
             }
-        })
-    }));
-    drain(&mut items, &mut taken);
-    let (fo, sok) = match fitted {
-        Err(_) => {
-            items.push(Item::Marker("Panic".into(), json!({"where": "fit"}), None));
-            let calls = log.lock().unwrap().calls;
-            return finish_items(rs, items, calls, true, termination, false);
+            Ok(v) => v,
+        };
+        termination = fo.termination.clone();
+        fit_ok = fo.ok;
+        let obj = fo.objective.to64();
+        let snap_end = Snap {
+            params: fo.fin.params.clone(),
+            present: fo.fin.coeffs.is_some(),
+            resid: fo.fin.residuals.clone(),
+        };
+        let mut fields = json!({
+            "ok": if sok.is_some() { fo.was_successful } else { fo.ok },
+            "result_ok": fo.ok,
+            "was_successful": fo.was_successful,
+            "term": fo.termination, "nfev": fo.nfev, "objective": obj,
+            "N": n, "M": m,
+            "certified": false, "noworse": true, "orth": true, "reproduces": true,
+        });
+        let name = if let Some(s) = sok {
+            fields["sok"] = json!(s);
+            "StatsEnd"
+        } else {
+            "FitEnd"
+        };
+        items.push(Item::Marker(name.into(), fields, Some(snap_end)));
+        let end_pos = items.len() - 1;
+        // the problem a fit hands back is an ordinary problem: its Jacobian can be queried ...
+        if rs.post_jac {
+            let q = catch_unwind(AssertUnwindSafe(|| pool.install(|| jac_query(rs, fo.problem.as_ref()))));
+            drain(&mut items, &mut taken);
+            match q {
+                Err(_) => {
+                    items.push(Item::Marker("Panic".into(), json!({"where": "jacobian of the returned problem"}), None));
+                    let calls = log.lock().unwrap().calls;
+                    return finish_items(rs, items, calls, true, termination, false);
+                }
+                Ok((present, fresh)) => items.push(Item::Marker("CJacEnd".into(), json!({"present": present, "fresh": fresh}), None)),
+            }
         }
-        Ok(v) => v,
-    };
-    termination = fo.termination.clone();
-    fit_ok = fo.ok;
-    let obj = fo.objective.to64();
-    let snap_end = Snap {
-        params: fo.fin.params.clone(),
-        present: fo.fin.coeffs.is_some(),
-        resid: fo.fin.residuals.clone(),
-    };
-    let mut fields = json!({
-        "ok": if sok.is_some() { fo.was_successful } else { fo.ok },
-        "result_ok": fo.ok,
-        "was_successful": fo.was_successful,
-        "term": fo.termination, "nfev": fo.nfev, "objective": obj,
-        "N": n, "M": m,
-    });
-    let name = if let Some(s) = sok {
-        fields["sok"] = json!(s);
-        "StatsEnd"
-    } else {
-        "FitEnd"
-    };
-    items.push(Item::Marker(name.into(), fields, Some(snap_end)));
-    let end_pos = items.len() - 1;
+        // ... and it can be fitted again
+        if round + 1 < n_fits {
+            let FitOut { problem, .. } = fo;
+            next_prob = Some(problem);
+        } else {
+            last = Some((fo, end_pos));
+        }
+    }
+    let (fo, end_pos) = last.unwrap();
     // best fit: one more model evaluation
     let FitOut { problem, fin: fin0, .. } = fo;
     let bf = catch_unwind(AssertUnwindSafe(|| problem.finish()));
@@ -583,6 +639,8 @@ fn poly_run<T: Sc>(i: usize, rng: &mut StdRng) -> RunSpec<T> {
         do_fit: true,
         cert: None,
         threads: [1, 2, 4, 16][i % 4],
+        post_jac: i % 2 == 0,
+        refit: i % 3 == 1,
     }
 }
 
@@ -631,6 +689,8 @@ fn exp_run<T: Sc>(i: usize, near: bool, rng: &mut StdRng) -> RunSpec<T> {
         do_fit: true,
         cert: if near { Some(Cert { truth, noiseless: noise == 0.0 }) } else { None },
         threads: [1, 3, 8][i % 3],
+        post_jac: !near && i % 2 == 1,
+        refit: !near && i % 4 == 2,
     }
 }
 
